@@ -344,6 +344,8 @@ class Engine:
             if not idx:
                 raise Unsupported('slice marker %r not found among the top-level statements' % bf)
             body = body[idx[0]:]
+            if getattr(c, 'body_to', None):
+                body = body[:c.body_to]       # ... and the statements after the slice as well
         outs = self.block(body, st)
         for s, kind, payload in outs:
             if kind is None:
